@@ -403,6 +403,17 @@ harness! {
         assert!(d.backlog.len() <= d.max_backlog_size, "C11 backlog never exceeds max_backlog_size after an insert");
     }
 }
+// the boundary max_backlog_size = 0: every insert merges at once (an off-by-one in the trigger would never merge)
+harness! {
+    #[kani::unwind(8)]
+    fn c11_td_backlog_bounded_mb0() {
+        let mut d = TDigestInner::new(AdvScale, 0);
+        d.insert_weighted(grid(0, 2, 1.), weight());
+        assert!(d.backlog.is_empty() && d.centroids.len() == 1, "C11 backlog never exceeds max_backlog_size after an insert");
+        d.insert_weighted(grid(0, 2, 1.), weight());
+        assert!(d.backlog.is_empty() && d.centroids.len() <= 2, "C11 backlog never exceeds max_backlog_size after an insert");
+    }
+}
 
 // clone() of the public TDigest (RefCell inside): independent copy (bounded: one concrete insert on either side)
 harness! {
